@@ -28,7 +28,7 @@ def cases(tier, rng):
                     total = sum(trials) * 6 * max(n, 2) + 20
                     for ops in ([['pop', total], ['pop', 7]],
                                 [['pop', rng.randint(1, 5)] for _ in range(6)] + [['pop', total], ['pop', 3]]):
-                        yield {'pol': pol, 'gs': gs, 'stims': stims, 'fs': rng.choice(FS), 't0': 0, 'seed': rng.randint(0, 30), 'ops': ops}
+                        yield {'pol': pol, 'gs': gs, 'stims': stims, 'fs': rng.choice(FS), 't0': 0, 'seed': rng.randint(0, 30), 'ops': ops, 'fill': rng.choice(['append', 'extend', 'mixed'])}
     for _ in range(150 if quick else 3000):
         n = rng.randint(2, 6)
         pol = rng.choice(qc.POLICIES)
@@ -37,7 +37,7 @@ def cases(tier, rng):
         total = sum(s['trials'] for s in stims) * 9 * n + 30
         ops = [['pop', rng.randint(1, 30)] for _ in range(rng.randint(0, 5))] + [['pop', total], ['pop', 11]]
         yield {'pol': pol, 'gs': rng.randint(1, n + 1), 'stims': stims, 'fs': rng.choice(FS), 't0': rng.choice([0, 9]),
-               'seed': rng.randint(0, 99), 'ops': ops}
+               'seed': rng.randint(0, 99), 'ops': ops, 'fill': rng.choice(['append', 'extend', 'mixed'])}
 
 
 def impl(case):
